@@ -881,9 +881,169 @@ func forwardFor(pk *packages.Package, f *ast.ForStmt, childrenOf func(ast.Expr) 
 // ---------------------------------------------------------------------------------------------
 // SIB-6
 
+// pairObligations: the From-Root form of every massive-mode operation runs the stages its From-Markdown form runs (all
+// but the two that read the document): the same stage methods of the tree's parts and the same collector.  A From-Root
+// form that is served some other way (delegated to the simple tree, a reduced pipeline) no longer behaves like the
+// Markdown form under cancellation, errors in a stage and validation.
+func pairObligations(p *Prog, l *obs) {
+	stageSet := func(fn *ssa.Function) map[string]bool {
+		out := map[string]bool{}
+		seen := map[*ssa.Function]bool{}
+		var visit func(f *ssa.Function, depth int)
+		visit = func(f *ssa.Function, depth int) {
+			if seen[f] || depth > 3 {
+				return
+			}
+			seen[f] = true
+			for _, a := range f.AnonFuncs {
+				visit(a, depth)
+			}
+			allInstrs(f, func(in ssa.Instruction) {
+				ci, ok := in.(ssa.CallInstruction)
+				if !ok {
+					return
+				}
+				com := ci.Common()
+				if com.IsInvoke() {
+					if _, fld, isField := fieldOfLoad(com.Value); isField {
+						out[fld+"."+methodName(com.Method)] = true
+					}
+					return
+				}
+				g := com.StaticCallee()
+				if g == nil || !p.InModule(g) {
+					return
+				}
+				// the collector: a function that is handed the stages' error channels
+				if n := len(g.Params); n > 0 {
+					if sl, ok := g.Params[n-1].Type().Underlying().(*types.Slice); ok {
+						if ch, ok := sl.Elem().Underlying().(*types.Chan); ok && isErrorType(ch.Elem()) {
+							out["collector"] = true
+							return
+						}
+					}
+				}
+				// helpers of the tree itself (a shared prologue, a source builder) are looked into
+				if recvTypeName(g) == recvTypeName(fn) {
+					visit(g, depth+1)
+				}
+			})
+		}
+		visit(fn, 0)
+		return out
+	}
+	n := 0
+	for _, fn := range libFuncs(p) {
+		if fn.Parent() != nil || recvTypeName(fn) != "treePipeline" || !strings.HasSuffix(fname(fn), "Programmably") {
+			continue
+		}
+		base := strings.TrimSuffix(fname(fn), "Programmably")
+		var md *ssa.Function
+		for _, g := range libFuncs(p) {
+			if g.Parent() == nil && recvTypeName(g) == "treePipeline" && fname(g) == base {
+				md = g
+			}
+		}
+		if md == nil {
+			continue
+		}
+		n++
+		a, b := stageSet(md), stageSet(fn)
+		if len(a) == 0 {
+			continue // the Markdown form starts no stage (walkIter): nothing to agree on
+		}
+		var missing, extra []string
+		for k := range a {
+			if !b[k] {
+				missing = append(missing, k)
+			}
+		}
+		for k := range b {
+			if !a[k] {
+				extra = append(extra, k)
+			}
+		}
+		sort.Strings(missing)
+		sort.Strings(extra)
+		construct := "From-Root form runs the stages of the From-Markdown form"
+		if len(missing) > 0 {
+			l.bad(p.FuncID(fn), construct, p.Pos(fn.Pos()), fmt.Sprintf("compared with %s it does not call %v (and calls %v that the other does not): the two forms of the massive operation no longer share validation, cancellation and error collection, so a tree built with NewRoot/Add behaves differently from the same tree written as Markdown", fname(md), missing, extra), "pair")
+		} else {
+			l.ok(p.FuncID(fn), construct, p.Pos(fn.Pos()), fmt.Sprintf("same %d stage / collector calls as %s", len(a), fname(md)), true, "pair")
+		}
+	}
+	if n == 0 {
+		l.undecided("-", "From-Root / From-Markdown pairs of the pipeline tree", "-", "no pair of methods X / XProgrammably found on the pipeline tree", "pair")
+	}
+}
+
+// shadowObligations: a pipeline stage type embeds the simple stage type so that its workers do, per root, what the
+// simple mode does.  A method declared on the pipeline type with the name and signature of a method of the embedded
+// type silently takes over every such call made through the pipeline object (massive mode then runs different per-root
+// code than simple mode), whereas the stage entry points differ in signature (they take the context and a channel).
+func shadowObligations(p *Prog, l *obs) {
+	pk := p.ModPkgs[modulePath]
+	if pk == nil {
+		return
+	}
+	scope := pk.Types.Scope()
+	n := 0
+	for _, name := range scope.Names() {
+		tn, ok := scope.Lookup(name).(*types.TypeName)
+		if !ok {
+			continue
+		}
+		named, ok := tn.Type().(*types.Named)
+		if !ok {
+			continue
+		}
+		st, ok := named.Underlying().(*types.Struct)
+		if !ok || !strings.HasSuffix(typeName(named), "Pipeline") {
+			continue
+		}
+		for i := 0; i < st.NumFields(); i++ {
+			f := st.Field(i)
+			if !f.Embedded() || !strings.HasSuffix(typeName(f.Type()), "Simple") {
+				continue
+			}
+			emb := namedOf(f.Type())
+			if emb == nil {
+				continue
+			}
+			n++
+			var shadows []string
+			for j := 0; j < named.NumMethods(); j++ {
+				m := named.Method(j)
+				for k := 0; k < emb.NumMethods(); k++ {
+					em := emb.Method(k)
+					if em.Name() != m.Name() {
+						continue
+					}
+					ms, es := m.Type().(*types.Signature), em.Type().(*types.Signature)
+					if types.Identical(types.NewSignatureType(nil, nil, nil, ms.Params(), ms.Results(), ms.Variadic()), types.NewSignatureType(nil, nil, nil, es.Params(), es.Results(), es.Variadic())) {
+						shadows = append(shadows, m.Name())
+					}
+				}
+			}
+			construct := "no per-root method of the embedded simple stage is replaced"
+			if len(shadows) > 0 {
+				sort.Strings(shadows)
+				l.bad("gtree."+typeName(named), construct, p.Pos(tn.Pos()), fmt.Sprintf("%s declares %v with the signature of the method it gets from the embedded %s: every call through the pipeline object now runs this version, so massive mode does per root something else than simple mode", typeName(named), shadows, typeName(emb)), "shadow")
+			} else {
+				l.ok("gtree."+typeName(named), construct, p.Pos(tn.Pos()), "no method of "+typeName(named)+" has the name and signature of a method of the embedded "+typeName(emb), true, "shadow")
+			}
+		}
+	}
+	if n == 0 {
+		l.undecided("-", "pipeline stage types embedding their simple counterpart", "-", "none found", "shadow")
+	}
+}
+
 func ruleSIB6(w *World) []Ob {
 	p := w.D()
 	l := &obs{rule: "SIB-6", cfg: "D"}
+	pairObligations(p, l)
+	shadowObligations(p, l)
 	mi := computeMulti(p)
 	n := 0
 	var workers []*ssa.Function
